@@ -137,6 +137,12 @@ def run(ctx, chk, tier):
     # an override is a method of the same name as an inherited query; new private helpers are not overrides
     extra = sorted((set(ci.methods) - allowed) & inherited)
     base_ok = [b.qualname if hasattr(b, "qualname") else str(b) for b in ci.bases] == [SCORES]
+    # class attributes count as well: a class-level constant of Scores (a range, a flag, a hook table) re-defined in FraudScores changes what
+    # the inherited methods compute for the view
+    base_attrs = set()
+    for b in sci_.mro():
+        base_attrs |= {n for n, _v, _a in getattr(b, "assigns", [])}
+    extra += sorted("class attribute " + n for n, _v, _a in getattr(ci, "assigns", []) if n in base_attrs and not (n.startswith("__") and n.endswith("__")))
     if not extra and base_ok:
         chk.hold("R19.3", "no-overrides", "FraudScores(Scores) defines %s: none overrides an inherited query" % sorted(ci.methods), nontrivial=False)
     else:
@@ -262,6 +268,28 @@ def caches_follow_setters(ctx, chk, ci):
                               "%s:%d" % (fi.module.relpath, fi.node.lineno))
             else:
                 chk.hold("R19.8", inst, "cached value reads no attribute that a setter re-binds")
+    # state DERIVED from pos / neg in a constructor (a float copy, a pooled array) is a cache as well: the setters must refresh or drop it
+    derived = {}
+    for c in mro:
+        init = c.methods.get("__init__")
+        if init is None:
+            continue
+        for n in ast.walk(init.node):
+            if isinstance(n, ast.Assign) and len(n.targets) == 1 and isinstance(n.targets[0], ast.Attribute) and isinstance(n.targets[0].value, ast.Name) \
+                    and n.targets[0].value.id == "self" and n.targets[0].attr not in rb:
+                srcs = {x.attr for x in ast.walk(n.value) if isinstance(x, ast.Attribute) and isinstance(x.value, ast.Name) and x.value.id == "self" and x.attr in rb}
+                if srcs:
+                    derived[n.targets[0].attr] = (sorted(srcs), init, n.lineno)
+    writers = attr_writers(ctx.db, ci)
+    for attr, (srcs, init, line) in sorted(derived.items()):
+        lacking = [w.qualname for a in srcs for w in writers.get(a, []) if not (invalidates(w.node, attr) or any(
+            isinstance(x, ast.Attribute) and isinstance(x.ctx, ast.Store) and x.attr == attr for x in ast.walk(w.node)))]
+        inst = "derived:%s" % attr
+        if lacking:
+            chk.violation("R19.8", init.qualname, inst, "self.%s is derived from self.%s in %s, but %s re-binds self.%s without refreshing it" % (attr, srcs[0], init.qualname.split(".")[-2] + ".__init__", lacking[0], srcs[0]),
+                          "no per-object copy of the scores outlives a re-binding of pos / neg through the aliases", "%s:%d" % (init.module.relpath, line))
+        else:
+            chk.hold("R19.8", inst, "derived attribute is refreshed by every writer of %s" % ", ".join(srcs))
     if not n_cached:
         chk.hold("R19.8", "no-functools-cache", "no functools cache on any method in the MRO of FraudScores (%d re-bindable attributes: %s)" % (len(rb), ", ".join(sorted(rb)[:6])), nontrivial=False)
 
